@@ -54,6 +54,16 @@ type fsEnv struct {
 	fs    *filesystem.VFS
 	spec  treeSpec
 	open  filesystem.File // a handle some entry points need (opened before the hook is armed)
+	pmap  func(string) string // canonical path ("/t/...") -> path on this back end (nil: identity)
+	base  string              // OS back end: the scratch directory of this environment
+}
+
+// P maps a canonical path of the entry-point table to the path to use on this environment's back end
+func (e *fsEnv) P(p string) string {
+	if e.pmap == nil {
+		return p
+	}
+	return e.pmap(p)
 }
 
 func pattern(n int, salt int) []byte {
@@ -204,16 +214,16 @@ func passWalk(_ string, _ os.FileInfo, err error) error { return err }
 func entryPoints() []entryPoint {
 	me, _ := user.Current()
 	lim := func() filesystem.ILimits { return filesystem.NewLimits(1<<30, 1<<40, 1<<20, 64, false) }
-	openDir := func(e *fsEnv) (err error) { e.open, err = e.fs.GenericOpen("/t/src"); return }
-	openFile := func(e *fsEnv) (err error) { e.open, err = e.fs.GenericOpen("/t/src/a/b/c.txt"); return }
+	openDir := func(e *fsEnv) (err error) { e.open, err = e.fs.GenericOpen(e.P("/t/src")); return }
+	openFile := func(e *fsEnv) (err error) { e.open, err = e.fs.GenericOpen(e.P("/t/src/a/b/c.txt")); return }
 	return []entryPoint{
-		{Name: "Walk", Methods: []string{"WalkWithContext"}, Run: func(ctx context.Context, e *fsEnv) error { return e.fs.WalkWithContext(ctx, "/t/src", passWalk) }},
+		{Name: "Walk", Methods: []string{"WalkWithContext"}, Run: func(ctx context.Context, e *fsEnv) error { return e.fs.WalkWithContext(ctx, e.P("/t/src"), passWalk) }},
 		{Name: "WalkExcl", Methods: []string{"WalkWithContextAndExclusionPatterns"}, Run: func(ctx context.Context, e *fsEnv) error {
-			return e.fs.WalkWithContextAndExclusionPatterns(ctx, "/t/src", passWalk, "f000.*")
+			return e.fs.WalkWithContextAndExclusionPatterns(ctx, e.P("/t/src"), passWalk, "f000.*")
 		}},
-		{Name: "ReadFile", Methods: []string{"ReadFileWithContext"}, Run: func(ctx context.Context, e *fsEnv) error { _, err := e.fs.ReadFileWithContext(ctx, "/t/src/big.bin"); return err }},
+		{Name: "ReadFile", Methods: []string{"ReadFileWithContext"}, Run: func(ctx context.Context, e *fsEnv) error { _, err := e.fs.ReadFileWithContext(ctx, e.P("/t/src/big.bin")); return err }},
 		{Name: "ReadFileLimits", Methods: []string{"ReadFileWithContextAndLimits"}, Run: func(ctx context.Context, e *fsEnv) error {
-			_, err := e.fs.ReadFileWithContextAndLimits(ctx, "/t/src/big.bin", lim())
+			_, err := e.fs.ReadFileWithContextAndLimits(ctx, e.P("/t/src/big.bin"), lim())
 			return err
 		}},
 		{Name: "ReadFileContent", Methods: []string{"ReadFileContent"}, Prep: openFile, Run: func(ctx context.Context, e *fsEnv) error {
@@ -221,109 +231,109 @@ func entryPoints() []entryPoint {
 			return err
 		}},
 		{Name: "WriteFile", Methods: []string{"WriteFileWithContext"}, Run: func(ctx context.Context, e *fsEnv) error {
-			return e.fs.WriteFileWithContext(ctx, "/t/new.bin", pattern(100000, 9), 0o644)
+			return e.fs.WriteFileWithContext(ctx, e.P("/t/new.bin"), pattern(100000, 9), 0o644)
 		}},
 		{Name: "WriteToFile", Methods: []string{"WriteToFile"}, Run: func(ctx context.Context, e *fsEnv) error {
-			_, err := e.fs.WriteToFile(ctx, "/t/new2.bin", bytes.NewReader(pattern(100000, 5)), 0o644)
+			_, err := e.fs.WriteToFile(ctx, e.P("/t/new2.bin"), bytes.NewReader(pattern(100000, 5)), 0o644)
 			return err
 		}},
-		{Name: "CleanDir", Methods: []string{"CleanDirWithContext"}, Run: func(ctx context.Context, e *fsEnv) error { return e.fs.CleanDirWithContext(ctx, "/t/src") }},
+		{Name: "CleanDir", Methods: []string{"CleanDirWithContext"}, Run: func(ctx context.Context, e *fsEnv) error { return e.fs.CleanDirWithContext(ctx, e.P("/t/src")) }},
 		{Name: "CleanDirExcl", Methods: []string{"CleanDirWithContextAndExclusionPatterns"}, Run: func(ctx context.Context, e *fsEnv) error {
-			return e.fs.CleanDirWithContextAndExclusionPatterns(ctx, "/t/src", "d000")
+			return e.fs.CleanDirWithContextAndExclusionPatterns(ctx, e.P("/t/src"), "d000")
 		}},
-		{Name: "Remove", Methods: []string{"RemoveWithContext"}, Run: func(ctx context.Context, e *fsEnv) error { return e.fs.RemoveWithContext(ctx, "/t/src") }},
-		{Name: "RemoveFile", Methods: []string{"RemoveWithContext"}, Run: func(ctx context.Context, e *fsEnv) error { return e.fs.RemoveWithContext(ctx, "/t/src/a/b/c.txt") }},
-		{Name: "RemoveEmptyDir", Methods: []string{"RemoveWithContext"}, Run: func(ctx context.Context, e *fsEnv) error { return e.fs.RemoveWithContext(ctx, "/t/empty") }},
+		{Name: "Remove", Methods: []string{"RemoveWithContext"}, Run: func(ctx context.Context, e *fsEnv) error { return e.fs.RemoveWithContext(ctx, e.P("/t/src")) }},
+		{Name: "RemoveFile", Methods: []string{"RemoveWithContext"}, Run: func(ctx context.Context, e *fsEnv) error { return e.fs.RemoveWithContext(ctx, e.P("/t/src/a/b/c.txt")) }},
+		{Name: "RemoveEmptyDir", Methods: []string{"RemoveWithContext"}, Run: func(ctx context.Context, e *fsEnv) error { return e.fs.RemoveWithContext(ctx, e.P("/t/empty")) }},
 		{Name: "RemoveExcl", Methods: []string{"RemoveWithContextAndExclusionPatterns"}, Run: func(ctx context.Context, e *fsEnv) error {
-			return e.fs.RemoveWithContextAndExclusionPatterns(ctx, "/t/src", "d000")
+			return e.fs.RemoveWithContextAndExclusionPatterns(ctx, e.P("/t/src"), "d000")
 		}},
-		{Name: "RemoveWithPrivileges", Methods: []string{"RemoveWithPrivileges"}, Run: func(ctx context.Context, e *fsEnv) error { return e.fs.RemoveWithPrivileges(ctx, "/t/src") }},
-		{Name: "Chmod", Methods: []string{"ChmodRecursively"}, Run: func(ctx context.Context, e *fsEnv) error { return e.fs.ChmodRecursively(ctx, "/t/src", 0o700) }},
-		{Name: "ChmodFile", Methods: []string{"ChmodRecursively"}, Run: func(ctx context.Context, e *fsEnv) error { return e.fs.ChmodRecursively(ctx, "/t/src/a/b/c.txt", 0o700) }},
-		{Name: "Chown", Methods: []string{"ChownRecursively"}, Run: func(ctx context.Context, e *fsEnv) error { return e.fs.ChownRecursively(ctx, "/t/src", 1234, 1234) }},
+		{Name: "RemoveWithPrivileges", Methods: []string{"RemoveWithPrivileges"}, Run: func(ctx context.Context, e *fsEnv) error { return e.fs.RemoveWithPrivileges(ctx, e.P("/t/src")) }},
+		{Name: "Chmod", Methods: []string{"ChmodRecursively"}, Run: func(ctx context.Context, e *fsEnv) error { return e.fs.ChmodRecursively(ctx, e.P("/t/src"), 0o700) }},
+		{Name: "ChmodFile", Methods: []string{"ChmodRecursively"}, Run: func(ctx context.Context, e *fsEnv) error { return e.fs.ChmodRecursively(ctx, e.P("/t/src/a/b/c.txt"), 0o700) }},
+		{Name: "Chown", Methods: []string{"ChownRecursively"}, Run: func(ctx context.Context, e *fsEnv) error { return e.fs.ChownRecursively(ctx, e.P("/t/src"), 1234, 1234) }},
 		{Name: "ChangeOwnership", Methods: []string{"ChangeOwnershipRecursively"}, Run: func(ctx context.Context, e *fsEnv) error {
-			return e.fs.ChangeOwnershipRecursively(ctx, "/t/src", me)
+			return e.fs.ChangeOwnershipRecursively(ctx, e.P("/t/src"), me)
 		}},
-		{Name: "LsRecursive", Methods: []string{"LsRecursive"}, Run: func(ctx context.Context, e *fsEnv) error { _, err := e.fs.LsRecursive(ctx, "/t/src", true); return err }},
+		{Name: "LsRecursive", Methods: []string{"LsRecursive"}, Run: func(ctx context.Context, e *fsEnv) error { _, err := e.fs.LsRecursive(ctx, e.P("/t/src"), true); return err }},
 		{Name: "LsRecursiveExcl", Methods: []string{"LsRecursiveWithExclusionPatterns"}, Run: func(ctx context.Context, e *fsEnv) error {
-			_, err := e.fs.LsRecursiveWithExclusionPatterns(ctx, "/t/src", false, "f000.*")
+			_, err := e.fs.LsRecursiveWithExclusionPatterns(ctx, e.P("/t/src"), false, "f000.*")
 			return err
 		}},
 		{Name: "LsRecursiveLimits", Methods: []string{"LsRecursiveWithExclusionPatternsAndLimits"}, Run: func(ctx context.Context, e *fsEnv) error {
-			_, err := e.fs.LsRecursiveWithExclusionPatternsAndLimits(ctx, "/t/src", lim(), true)
+			_, err := e.fs.LsRecursiveWithExclusionPatternsAndLimits(ctx, e.P("/t/src"), lim(), true)
 			return err
 		}},
 		{Name: "LsRecursiveOpened", Methods: []string{"LsRecursiveFromOpenedDirectory"}, Prep: openDir, Run: func(ctx context.Context, e *fsEnv) error {
 			_, err := e.fs.LsRecursiveFromOpenedDirectory(ctx, e.open, true)
 			return err
 		}},
-		{Name: "Move", Methods: []string{"MoveWithContext"}, Run: func(ctx context.Context, e *fsEnv) error { return e.fs.MoveWithContext(ctx, "/t/src", "/t/moved/dst") }},
-		{Name: "MoveNoRename", RenameFails: true, Methods: []string{"MoveWithContext"}, Run: func(ctx context.Context, e *fsEnv) error { return e.fs.MoveWithContext(ctx, "/t/src", "/t/moved/dst") }},
+		{Name: "Move", Methods: []string{"MoveWithContext"}, Run: func(ctx context.Context, e *fsEnv) error { return e.fs.MoveWithContext(ctx, e.P("/t/src"), e.P("/t/moved/dst")) }},
+		{Name: "MoveNoRename", RenameFails: true, Methods: []string{"MoveWithContext"}, Run: func(ctx context.Context, e *fsEnv) error { return e.fs.MoveWithContext(ctx, e.P("/t/src"), e.P("/t/moved/dst")) }},
 		{Name: "MoveFileNoRename", RenameFails: true, Methods: []string{"MoveWithContext"}, Run: func(ctx context.Context, e *fsEnv) error {
-			return e.fs.MoveWithContext(ctx, "/t/src/big.bin", "/t/moved/big.bin")
+			return e.fs.MoveWithContext(ctx, e.P("/t/src/big.bin"), e.P("/t/moved/big.bin"))
 		}},
 		{Name: "FileHash", Methods: []string{"FileHashWithContext"}, Run: func(ctx context.Context, e *fsEnv) error {
-			_, err := e.fs.FileHashWithContext(ctx, "SHA256", "/t/src/big.bin")
+			_, err := e.fs.FileHashWithContext(ctx, "SHA256", e.P("/t/src/big.bin"))
 			return err
 		}},
 		{Name: "CopyToFile", Methods: []string{"CopyToFileWithContext"}, Run: func(ctx context.Context, e *fsEnv) error {
-			return e.fs.CopyToFileWithContext(ctx, "/t/src/big.bin", "/t/out/copy.bin")
+			return e.fs.CopyToFileWithContext(ctx, e.P("/t/src/big.bin"), e.P("/t/out/copy.bin"))
 		}},
 		{Name: "CopyToDirectory", Methods: []string{"CopyToDirectoryWithContext"}, Run: func(ctx context.Context, e *fsEnv) error {
-			return e.fs.CopyToDirectoryWithContext(ctx, "/t/src", "/t/outdir")
+			return e.fs.CopyToDirectoryWithContext(ctx, e.P("/t/src"), e.P("/t/outdir"))
 		}},
-		{Name: "Copy", Methods: []string{"CopyWithContext"}, Run: func(ctx context.Context, e *fsEnv) error { return e.fs.CopyWithContext(ctx, "/t/src", "/t/copy") }},
+		{Name: "Copy", Methods: []string{"CopyWithContext"}, Run: func(ctx context.Context, e *fsEnv) error { return e.fs.CopyWithContext(ctx, e.P("/t/src"), e.P("/t/copy")) }},
 		{Name: "CopyExcl", Methods: []string{"CopyWithContextAndExclusionPatterns"}, Run: func(ctx context.Context, e *fsEnv) error {
-			return e.fs.CopyWithContextAndExclusionPatterns(ctx, "/t/src", "/t/copy", "f000.*")
+			return e.fs.CopyWithContextAndExclusionPatterns(ctx, e.P("/t/src"), e.P("/t/copy"), "f000.*")
 		}},
 		{Name: "MoveBetweenFS", Methods: []string{"pkg.MoveBetweenFS"}, Run: func(ctx context.Context, e *fsEnv) error {
-			return filesystem.MoveBetweenFS(ctx, e.fs, "/t/src", e.fs, "/t/mv2")
+			return filesystem.MoveBetweenFS(ctx, e.fs, e.P("/t/src"), e.fs, e.P("/t/mv2"))
 		}},
 		{Name: "CopyBetweenFS", Methods: []string{"pkg.CopyBetweenFS"}, Run: func(ctx context.Context, e *fsEnv) error {
-			return filesystem.CopyBetweenFS(ctx, e.fs, "/t/src", e.fs, "/t/cp2")
+			return filesystem.CopyBetweenFS(ctx, e.fs, e.P("/t/src"), e.fs, e.P("/t/cp2"))
 		}},
 		{Name: "CopyBetweenFSExcl", Methods: []string{"pkg.CopyBetweenFSWithExclusionPatterns"}, Run: func(ctx context.Context, e *fsEnv) error {
-			return filesystem.CopyBetweenFSWithExclusionPatterns(ctx, e.fs, "/t/src", e.fs, "/t/cp3", "d000")
+			return filesystem.CopyBetweenFSWithExclusionPatterns(ctx, e.fs, e.P("/t/src"), e.fs, e.P("/t/cp3"), "d000")
 		}},
 		{Name: "CopyBetweenFSRegexes", Methods: []string{"pkg.CopyBetweenFSWithExclusionRegexes"}, Run: func(ctx context.Context, e *fsEnv) error {
-			return filesystem.CopyBetweenFSWithExclusionRegexes(ctx, e.fs, "/t/src", e.fs, "/t/cp4", []*regexp.Regexp{}, []*regexp.Regexp{})
+			return filesystem.CopyBetweenFSWithExclusionRegexes(ctx, e.fs, e.P("/t/src"), e.fs, e.P("/t/cp4"), []*regexp.Regexp{}, []*regexp.Regexp{})
 		}},
 		{Name: "SubDirectories", Methods: []string{"SubDirectoriesWithContext"}, Run: func(ctx context.Context, e *fsEnv) error {
-			_, err := e.fs.SubDirectoriesWithContext(ctx, "/t/src")
+			_, err := e.fs.SubDirectoriesWithContext(ctx, e.P("/t/src"))
 			return err
 		}},
 		{Name: "SubDirectoriesExcl", Methods: []string{"SubDirectoriesWithContextAndExclusionPatterns"}, Run: func(ctx context.Context, e *fsEnv) error {
-			_, err := e.fs.SubDirectoriesWithContextAndExclusionPatterns(ctx, "/t/src", "d000")
+			_, err := e.fs.SubDirectoriesWithContextAndExclusionPatterns(ctx, e.P("/t/src"), "d000")
 			return err
 		}},
 		{Name: "ListDirTree", Methods: []string{"ListDirTreeWithContext"}, Run: func(ctx context.Context, e *fsEnv) error {
 			var l []string
-			return e.fs.ListDirTreeWithContext(ctx, "/t/src", &l)
+			return e.fs.ListDirTreeWithContext(ctx, e.P("/t/src"), &l)
 		}},
 		{Name: "ListDirTreeExcl", Methods: []string{"ListDirTreeWithContextAndExclusionPatterns", "pkg.ListDirTreeWithContextAndExclusionPatterns"}, Run: func(ctx context.Context, e *fsEnv) error {
 			var l []string
-			return e.fs.ListDirTreeWithContextAndExclusionPatterns(ctx, "/t/src", &l, "f000.*")
+			return e.fs.ListDirTreeWithContextAndExclusionPatterns(ctx, e.P("/t/src"), &l, "f000.*")
 		}},
 		{Name: "GarbageCollect", Concurrent: true, Methods: []string{"GarbageCollectWithContext"}, Run: func(ctx context.Context, e *fsEnv) error {
-			return e.fs.GarbageCollectWithContext(ctx, "/t/src", -time.Hour)
+			return e.fs.GarbageCollectWithContext(ctx, e.P("/t/src"), -time.Hour)
 		}},
-		{Name: "Zip", Methods: []string{"ZipWithContext"}, Run: func(ctx context.Context, e *fsEnv) error { return e.fs.ZipWithContext(ctx, "/t/src", "/t/out.zip") }},
+		{Name: "Zip", Methods: []string{"ZipWithContext"}, Run: func(ctx context.Context, e *fsEnv) error { return e.fs.ZipWithContext(ctx, e.P("/t/src"), e.P("/t/out.zip")) }},
 		{Name: "ZipLimits", Methods: []string{"ZipWithContextAndLimits"}, Run: func(ctx context.Context, e *fsEnv) error {
-			return e.fs.ZipWithContextAndLimits(ctx, "/t/src", "/t/out.zip", lim())
+			return e.fs.ZipWithContextAndLimits(ctx, e.P("/t/src"), e.P("/t/out.zip"), lim())
 		}},
 		{Name: "ZipExcl", Methods: []string{"ZipWithContextAndLimitsAndExclusionPatterns"}, Run: func(ctx context.Context, e *fsEnv) error {
-			return e.fs.ZipWithContextAndLimitsAndExclusionPatterns(ctx, "/t/src", "/t/out.zip", filesystem.NoLimits(), "d000")
+			return e.fs.ZipWithContextAndLimitsAndExclusionPatterns(ctx, e.P("/t/src"), e.P("/t/out.zip"), filesystem.NoLimits(), "d000")
 		}},
 		{Name: "Unzip", Zip: true, Methods: []string{"UnzipWithContext"}, Run: func(ctx context.Context, e *fsEnv) error {
-			_, err := e.fs.UnzipWithContext(ctx, "/t/a.zip", "/t/unz")
+			_, err := e.fs.UnzipWithContext(ctx, e.P("/t/a.zip"), e.P("/t/unz"))
 			return err
 		}},
 		{Name: "UnzipLimits", Zip: true, Methods: []string{"UnzipWithContextAndLimits"}, Run: func(ctx context.Context, e *fsEnv) error {
-			_, err := e.fs.UnzipWithContextAndLimits(ctx, "/t/a.zip", "/t/unz", lim())
+			_, err := e.fs.UnzipWithContextAndLimits(ctx, e.P("/t/a.zip"), e.P("/t/unz"), lim())
 			return err
 		}},
 		{Name: "IsZip", Zip: true, Methods: []string{"IsZipWithContext"}, Run: func(ctx context.Context, e *fsEnv) error {
-			_, err := e.fs.IsZipWithContext(ctx, "/t/a.zip")
+			_, err := e.fs.IsZipWithContext(ctx, e.P("/t/a.zip"))
 			return err
 		}},
 	}
@@ -385,6 +395,8 @@ type fsCase struct {
 	Mode   string   `json:"mode"` // pre-cancelled | pre-deadline | cancel-at | gc-barrier
 	K      int64    `json:"k,omitempty"`
 	Fanout int      `json:"fanout,omitempty"`
+	Arg     string  `json:"argument,omitempty"` // OS back end: plain | arg-is-link | arg-is-dangling
+	Backend string  `json:"backend,omitempty"`  // "" (in-memory) | os
 }
 
 func findEP(name string) *entryPoint {
